@@ -15,6 +15,7 @@ mod c11;
 mod c04;
 mod c05;
 mod c16;
+mod c01;
 
 pub struct Budget {
     pub end: Instant,
@@ -36,6 +37,7 @@ fn run_one(pid: &str, input: &Value) -> Option<Value> {
         "C04" => c04::run(&input),
         "C05" => c05::run(&input),
         "C16" => c16::run(&input),
+        "C01" | "C08" => c01::run(&input),
         _ => None,
     });
     match r {
@@ -61,6 +63,7 @@ fn gen(pid: &str, r: &mut rng::Rng) -> Option<Value> {
         "C04" => Some(c04::gen(r)),
         "C05" => Some(c05::gen(r)),
         "C16" => Some(c16::gen(r)),
+        "C01" | "C08" => Some(c01::gen(r)),
         _ => None,
     }
 }
